@@ -51,4 +51,18 @@ theorem rendered_get_of_mem (bases : List TdClass) (fields : List TdField) (o : 
     simpa [TdField.entry] using this
   simp only [TdClass.allFields, List.map_append, lastVal_append, h, Option.some_or]
 
+theorem semOf_dc_acceptsNull (s : Shape) : (semOf .dc s).acceptsNull = s.opt := by
+  obtain ⟨o, nr, an, asg⟩ := s
+  rcases asg with _ | d | _ | d | _ | d | (_ | d) <;> simp [semOf, Asg.default?]
+
+/-- whether a re-declared member accepts null is decided by the re-declaration alone, in every kind -/
+theorem inheritSem_acceptsNull (k : Kind) (sb s : Shape) :
+    (inheritSem k sb (some s)).acceptsNull = (semOf k s).acceptsNull := by
+  simp only [inheritSem]
+  by_cases hc : (k == Kind.dc && s.asg == Asg.none) = true
+  · rw [if_pos hc]
+    simp only [Bool.and_eq_true, beq_iff_eq] at hc
+    cases hb : sb.asg <;> simp only [hc.1, semOf_dc_acceptsNull]
+  · rw [if_neg hc]
+
 end Dcg.Proofs.Field
